@@ -59,6 +59,7 @@ func c18Members() []bMember {
 		{JSON: `{"jsonrpc":"2.0","id":9,"method":"nope"}`, ID: "9", Kind: "unknown", WantErr: true},
 		{JSON: `{"jsonrpc":"2.0","id":8}`, ID: "8", Kind: "invalid", WantErr: true},
 		{JSON: `{"jsonrpc":"2.0","method":"nope","params":["u"]}`, Kind: "unote"}, // notification for an unknown method: no response, no handler
+		{JSON: `{"jsonrpc":"2.0","id":null,"method":"echo","params":["z"]}`, Kind: "note", Tag: "z"}, // a notification spelled with a null id
 	}
 }
 
